@@ -7,6 +7,8 @@ import (
 	"os"
 	"reflect"
 	"runtime/metrics"
+	"runtime/pprof"
+	"strings"
 	"sync"
 	"sync/atomic"
 	"syscall"
@@ -172,6 +174,16 @@ func c10Bodies(g gen.G) map[uint16][][]byte {
 		pool[0x0704] = append(pool[0x0704], g.Batch0704(4))
 		if b := pool[0x8103]; len(b) > 0 {
 			pool[0x0104] = append(pool[0x0104], append([]byte{g.U8(), g.U8()}, b[len(b)-1]...))
+		}
+	}
+	// parameter lists holding ONE parameter: vendor / active-safety / reserved IDs that no recorded frame carries and the
+	// standard IDs around each width class, with value lengths 0..4 and the standard widths (a per-ID decoder without a
+	// length guard indexes into what is not there)
+	for _, id := range []uint32{0xF364, 0xF365, 0xF366, 0xF367, 0xF368, 0xF370, 0xF000, 0xFFFF, 0x0110, 0x0111, 0x01FF, 0x0032, 0x0084, 0x0001, 0x0013, 0x005D, 0x7FFF, 0x8000, 0xFFFFFFFF, 0x00010001} {
+		for _, l := range []int{0, 1, 2, 3, 4, 7, 8, 9} {
+			b := []byte{0, byte(id), 1, byte(id >> 24), byte(id >> 16), byte(id >> 8), byte(id), byte(l)}
+			b = append(b, g.Bytes(l)...)
+			pool[0x0104] = append(pool[0x0104], b)
 		}
 	}
 	return pool
@@ -701,6 +713,36 @@ func c10JT808(c *core.Collector, x *Ctx, parsing bool) {
 	n := c.N(1500, 8000)
 	g := gen.G{Rand: core.NewRand(c.Seed, "c10/"+fmt.Sprint(parsing), uint64(x.Batch))}
 	pool := c10Bodies(g)
+	// systematic pass (batch 0): every single-parameter list of the pool, as a 0x0104 and wrapped as a 0x8103-shaped body,
+	// unmutated, each on a connection of its own behind a heartbeat (the random attackers below pick one of them once in
+	// tens of thousands of frames)
+	if x.Batch == 0 {
+		swept := 0
+		for _, b := range pool[0x0104] {
+			if len(b) < 8 || b[2] != 1 || len(b) != 8+int(b[7]) {
+				continue
+			}
+			bcd := []byte{0, 0, 0, 0x55, 0x77, byte(swept)}
+			cn := c10Conn{Close: "fin", Writes: [][]byte{
+				ref.Build(ref.Params{ID: 0x0002, BCD: bcd, Serial: 1}),
+				ref.Build(ref.Params{ID: 0x0104, BCD: bcd, Serial: 2, Body: b}),
+				ref.Build(ref.Params{ID: 0x0002, BCD: bcd, Serial: 3}),
+			}}
+			x.Journal.Log(true, "param sweep conn writes=%s", c10Hex(cn.Writes))
+			if !c10Send(srv.Addr, cn) {
+				c.Violate("accept|new connection refused while hostile connections were served", "single-parameter sweep", nil)
+				break
+			}
+			c.Eval()
+			swept++
+		}
+		c.Count("single_parameter_lists_swept", int64(swept))
+		if ok, to := c10Probe(srv.Addr, x.Batch*100000+99000); to {
+			c.Inconclusive()
+		} else if !ok {
+			c.Violate("probe|a fresh connection was not served correctly after hostile connections", "after the single-parameter sweep", nil)
+		}
+	}
 	probes := 0
 	// 4 attackers in parallel, each with its own stream
 	var awg sync.WaitGroup
@@ -1325,8 +1367,26 @@ func c10FD(c *core.Collector, x *Ctx) {
 // silent, established sessions must keep being served and NEW terminals must be admitted and answered (within a bound
 // generous enough for a server that gives a stuck write some seconds before it gives the connection up).
 func c10Stalled(c *core.Collector, x *Ctx) {
-	c.Rule = "a hostile client joins, floods valid heartbeats and never reads; once a socket write of the server is seen parked (goroutine dump) the platform addresses 6 commands to that terminal, as it does to any terminal it knows; " +
-		"oracle: while the client stays connected and silent for 40 s, two canary sessions keep getting their replies and every fresh terminal is answered within 30 s; afterwards the client closes and every command call returns. evaluation = one probe / command call"
+	c.Rule = "a hostile client joins, floods valid heartbeats (variant: after opening 7 000 sub-packaged transfers and waiting 5.3 s, so that the server's writes are re-requests) and never reads; once a socket write of the server is seen parked (goroutine dump) the platform addresses 6 commands to that terminal, as it does to any terminal it knows; " +
+		"oracle: while the client stays connected and silent, two canary sessions keep getting their replies and every fresh terminal is answered within 30 s; afterwards the client closes and every command call returns. The same lifecycle against the attachment server (flood of 0x1212 requests, 13 s). Each variant has a server of its own. evaluation = one probe / command call"
+	var wg sync.WaitGroup
+	for _, v := range []int{0, 1} {
+		wg.Add(1)
+		go func(v int) {
+			defer wg.Done()
+			c10StalledRound(c, x, v)
+		}(v)
+	}
+	wg.Add(1)
+	go func() {
+		defer wg.Done()
+		c10StalledAttachment(c, x)
+	}()
+	wg.Wait()
+	c.Floor("servers_writes_parked_by_a_client_that_does_not_read", 1)
+}
+
+func c10StalledRound(c *core.Collector, x *Ctx, round int) {
 	srv, err := svc.Start(nil)
 	if err != nil {
 		c.Inconclusive()
@@ -1346,7 +1406,7 @@ func c10Stalled(c *core.Collector, x *Ctx) {
 		stop.Store(true)
 		wg.Wait()
 	}()
-	for round := 0; round < c.N(1, 3); round++ {
+	{
 		t, err := svc.Dial(srv.Addr, round%2 == 1, fmt.Sprintf("%d", 9400000+round))
 		if err != nil {
 			c.Inconclusive()
@@ -1369,6 +1429,22 @@ func c10Stalled(c *core.Collector, x *Ctx) {
 		for k := 0; k < 1000; k++ {
 			batch = append(batch, t.Frame(0x0002, uint16(k+2), nil)...)
 		}
+		if round%2 == 1 {
+			// variant: the writes that fill the buffers are re-requests, not replies — 7 000 transfers (packet 1 of 511, one
+			// message ID each) are opened, left alone for 5.3 s, and then the flood of heartbeats begins: the first read after
+			// the pause makes the server ask for 510 missing packets of every one of them (7 MB of 0x8003 frames)
+			var open []byte
+			for k := 0; k < 7000; k++ {
+				open = append(open, t.SubFrame(uint16(0x3000+k), uint16(k), 511, 1, []byte{byte(k)})...)
+				if len(open) > 50000 {
+					raw.Write(open)
+					open = open[:0]
+				}
+			}
+			raw.Write(open)
+			time.Sleep(5300 * time.Millisecond)
+		}
+		var stalls atomic.Int64 // consecutive writes of ours that made no progress in 200 ms: the server is not reading THIS connection
 		floodStop := make(chan struct{})
 		floodDone := make(chan struct{})
 		go func() {
@@ -1390,6 +1466,9 @@ func c10Stalled(c *core.Collector, x *Ctx) {
 					if ne, ok := err.(net.Error); !ok || !ne.Timeout() {
 						return
 					}
+					stalls.Add(1)
+				} else {
+					stalls.Store(0)
 				}
 			}
 		}()
@@ -1397,7 +1476,7 @@ func c10Stalled(c *core.Collector, x *Ctx) {
 		parked := false
 		for i := 0; i < 120 && !parked; i++ {
 			time.Sleep(250 * time.Millisecond)
-			parked = goroutineInIOWaitWrite()
+			parked = stalls.Load() >= 5 && goroutineInIOWaitWrite()
 		}
 		if !parked {
 			close(floodStop)
@@ -1453,5 +1532,112 @@ func c10Stalled(c *core.Collector, x *Ctx) {
 		}
 		c.NonTrivial(core.HashString(fmt.Sprintf("stalled/%d/%d", x.Batch, round)))
 	}
-	c.Floor("servers_writes_parked_by_a_client_that_does_not_read", 1)
+}
+
+// c10StalledAttachment: the same lifecycle against the attachment server: a client announces a file and then floods 0x1212
+// requests for it (each is answered with a retransmission list) without ever reading. Once a reply write is parked it keeps
+// the connection for 13 more seconds with more requests buffered behind — longer than a write deadline a server may use —
+// while ordinary upload sessions on other connections must complete all the time, and after it has gone.
+func c10StalledAttachment(c *core.Collector, x *Ctx) {
+	addr, err := att.StartTCP() // default handlers
+	if err != nil {
+		c.Inconclusive()
+		return
+	}
+	good := func(n int) (ok, timedOut bool) {
+		bcd := []byte{0x01, 0x37, 0x00, 0x00, 0x00, byte(n)}
+		f := att.File{Name: []byte(fmt.Sprintf("ok%d.bin", n)), Size: 64, Content: bytes.Repeat([]byte{byte(n)}, 64)}
+		var writes [][]byte
+		serial := uint16(1)
+		ctrl := func(id uint16, body []byte) {
+			writes = append(writes, ref.Build(ref.Params{ID: id, BCD: bcd, Serial: serial, Body: body}))
+			serial++
+		}
+		ctrl(0x1210, att.Body1210(consts.ActiveSafetyJS, []byte("T1"), []byte("a"), []att.File{f}))
+		ctrl(0x1211, att.Body1211(f, 0))
+		writes = append(writes, append(att.ChunkHeader(consts.ActiveSafetyJS, f.Name, 0, 64), f.Content...))
+		ctrl(0x1212, att.Body1211(f, 0))
+		var started atomic.Int64
+		res := att.RunTCP(addr, writes, &started, 3)
+		if res.TimedOut {
+			return false, true
+		}
+		if len(res.Replies) != 3 || res.Replies[2] == nil || res.Replies[2].ID != 0x9212 {
+			return false, false
+		}
+		return true, false
+	}
+	bcd := []byte{0x01, 0x37, 0x00, 0x00, 0x99, 0x01}
+	f := att.File{Name: []byte("never.bin"), Size: 1 << 20}
+	raw, err := net.DialTimeout("tcp", addr, 5*time.Second)
+	if err != nil {
+		c.Inconclusive()
+		return
+	}
+	defer raw.Close()
+	raw.Write(ref.Build(ref.Params{ID: 0x1210, BCD: bcd, Serial: 1, Body: att.Body1210(consts.ActiveSafetyJS, []byte("T1"), []byte("a"), []att.File{f})}))
+	raw.Write(ref.Build(ref.Params{ID: 0x1211, BCD: bcd, Serial: 2, Body: att.Body1211(f, 0)}))
+	var batch []byte
+	for k := 0; k < 500; k++ {
+		batch = append(batch, ref.Build(ref.Params{ID: 0x1212, BCD: bcd, Serial: uint16(3 + k), Body: att.Body1211(f, 0)})...)
+	}
+	parkedAt := time.Time{}
+	pending := batch
+	start := time.Now()
+	probes, served := 0, 0
+	for time.Since(start) < 60*time.Second {
+		raw.SetWriteDeadline(time.Now().Add(200 * time.Millisecond))
+		n, err := raw.Write(pending)
+		pending = pending[n:]
+		if len(pending) == 0 {
+			pending = batch
+		}
+		if err != nil {
+			if ne, ok := err.(net.Error); !ok || !ne.Timeout() {
+				break // the server has ended the connection: fine
+			}
+			if parkedAt.IsZero() && goroutineRunning("attachment.(*connection).run") {
+				var buf bytes.Buffer
+				pprof.Lookup("goroutine").WriteTo(&buf, 2)
+				for _, g := range strings.Split(buf.String(), "\n\n") {
+					if strings.Contains(g, "IO wait") && strings.Contains(g, "internal/poll.(*FD).Write") && strings.Contains(g, "attachment.(*connection).run") {
+						parkedAt = time.Now()
+					}
+				}
+			}
+		}
+		if !parkedAt.IsZero() {
+			if time.Since(parkedAt) > 13*time.Second {
+				break
+			}
+			// an ordinary session every second or so
+			if int(time.Since(parkedAt)/time.Second) >= probes {
+				probes++
+				c.Eval()
+				ok, to := good(probes)
+				switch {
+				case ok:
+					served++
+				case to:
+					c.Inconclusive()
+				default:
+					c.Violate("probe|a fresh connection was not served correctly after hostile connections", "attachment server, while a client that does not read was connected", nil)
+					return
+				}
+			}
+		}
+	}
+	if parkedAt.IsZero() {
+		c.Inconclusive()
+		return
+	}
+	raw.Close()
+	c.Eval()
+	if ok, to := good(99); to {
+		c.Inconclusive()
+	} else if !ok {
+		c.Violate("probe|a fresh connection was not served correctly after hostile connections", "attachment server, after a client that did not read has gone", nil)
+	}
+	c.Count("attachment_sessions_served_while_a_client_does_not_read", int64(served))
+	c.Floor("attachment_sessions_served_while_a_client_does_not_read", 5)
 }
